@@ -521,11 +521,9 @@ pub fn open_at(
         Err(a) => return Err(a),
     };
     let xis = sp.challenges();
-    let (ps, used_xi, used_ro, used_dr) =
-        scalar_open(&c.trap, s, &polys, &csub.iter().collect::<Vec<_>>(), &rands, z, &xis, &ros, &draws).ok_or("scalar prover ran out of oracle outputs".to_string())?;
-    if !ps.matches(&proof) {
-        return Err("proof-not-key-defined".into());
-    }
+    // the prover in scalar form; a library proof that is not the key-defined one (e.g. hiding dropped,
+    // another number of rounds) is reported, after the model has been asked about it as well
+    let sc = scalar_open(&c.trap, s, &polys, &csub.iter().collect::<Vec<_>>(), &rands, z, &xis, &ros, &draws);
     let lp: Vec<LP> = polys.iter().map(|p| (*p).clone()).collect();
     let lr: Vec<Rand> = rands.iter().map(|r| (*r).clone()).collect();
     let reqm = comms_args(rands_args(polys_args(c.base_req("ipa.open", req), &lp), &lr), &csub)
@@ -534,23 +532,26 @@ pub fn open_at(
         .arg("ros", wire::fes(&ros))
         .arg("rng", wire::boolean(true))
         .arg("draws", wire::fes(&draws));
-    ctx.ses.ask(
-        id,
-        reqm,
-        ImplOutcome::Ok(vec![
-            ("ls".into(), Expect::G1s(proof.l_vec.clone())),
-            ("rs".into(), Expect::G1s(proof.r_vec.clone())),
-            ("fck".into(), Expect::G1(proof.final_comm_key)),
-            ("pc".into(), Expect::Fe(proof.c)),
-            ("hcl".into(), Expect::OptG1List(vec![proof.hiding_comm])),
-            ("prand".into(), Expect::OptFe(proof.rand)),
-            ("nl".into(), Expect::Nat(proof.l_vec.len())),
-            ("nr".into(), Expect::Nat(proof.r_vec.len())),
-            ("used_xi".into(), Expect::Nat(used_xi)),
-            ("used_ro".into(), Expect::Nat(used_ro)),
-            ("used_draws".into(), Expect::Nat(used_dr)),
-        ]),
-    );
+    let mut exp = vec![
+        ("ls".into(), Expect::G1s(proof.l_vec.clone())),
+        ("rs".into(), Expect::G1s(proof.r_vec.clone())),
+        ("fck".into(), Expect::G1(proof.final_comm_key)),
+        ("pc".into(), Expect::Fe(proof.c)),
+        ("hcl".into(), Expect::OptG1List(vec![proof.hiding_comm])),
+        ("prand".into(), Expect::OptFe(proof.rand)),
+        ("nl".into(), Expect::Nat(proof.l_vec.len())),
+        ("nr".into(), Expect::Nat(proof.r_vec.len())),
+        ("used_xi".into(), Expect::Nat(xis.len())),
+    ];
+    if let Some((_, _, used_ro, used_dr)) = &sc {
+        exp.push(("used_ro".into(), Expect::Nat(*used_ro)));
+        exp.push(("used_draws".into(), Expect::Nat(*used_dr)));
+    }
+    ctx.ses.ask(id, reqm, ImplOutcome::Ok(exp));
+    let ps = match sc {
+        Some((ps, _, _, _)) if ps.matches(&proof) => ps,
+        _ => return Err("proof-not-key-defined".into()),
+    };
     Ok(Opened { z, values, proof, ps, xis, ros })
 }
 
@@ -650,40 +651,49 @@ pub fn batch_open(ctx: &mut Ctx, rng: &mut Rng, id: &str, c: &Case, cs: &[CommS]
     let xis = sp.challenges();
     let (mut kx, mut kr, mut kd) = (0usize, 0usize, 0usize);
     let mut ps = vec![];
+    let mut complete = true;
     for (_, pt, labels) in &groups {
         let idx: Vec<usize> = labels.iter().filter_map(|l| c.polys.iter().position(|p| p.label() == l)).collect();
         let polys: Vec<&LP> = idx.iter().map(|&i| &c.polys[i]).collect();
         let rands: Vec<&Rand> = idx.iter().map(|&i| &c.rands[i]).collect();
         let csub: Vec<&CommS> = idx.iter().map(|&i| &cs[i]).collect();
-        let (p, ux, ur, ud) = scalar_open(&c.trap, c.s, &polys, &csub, &rands, *pt, &xis[kx..], &ros[kr..], &draws[kd..]).ok_or("scalar prover ran out of oracle outputs".to_string())?;
-        kx += ux;
-        kr += ur;
-        kd += ud;
-        ps.push(p);
+        match scalar_open(&c.trap, c.s, &polys, &csub, &rands, *pt, xis.get(kx..).unwrap_or(&[]), ros.get(kr..).unwrap_or(&[]), draws.get(kd..).unwrap_or(&[])) {
+            Some((p, ux, ur, ud)) => {
+                kx += ux;
+                kr += ur;
+                kd += ud;
+                ps.push(p);
+            }
+            None => {
+                complete = false;
+                break;
+            }
+        }
     }
-    if ps.len() != proofs.len() || !ps.iter().zip(&proofs).all(|(a, b)| a.matches(b)) {
-        return Err("proof-not-key-defined".into());
-    }
+    let key_defined = complete && ps.len() == proofs.len() && ps.iter().zip(&proofs).all(|(a, b)| a.matches(b));
     let req = queries_args(comms_args(rands_args(polys_args(c.base("ipa.batch_open"), &c.polys), &c.rands), cs), qs)
         .arg("xis", wire::fes(&xis))
         .arg("ros", wire::fes(&ros))
         .arg("rng", wire::boolean(true))
         .arg("draws", wire::fes(&draws));
-    ctx.ses.ask(
-        id,
-        req,
-        ImplOutcome::Ok(vec![
-            ("lss".into(), Expect::Raw(Val::L(ps.iter().map(|p| wire::fes(&p.ls)).collect()))),
-            ("rss".into(), Expect::Raw(Val::L(ps.iter().map(|p| wire::fes(&p.rs)).collect()))),
-            ("fcks".into(), Expect::G1s(proofs.iter().map(|p| p.final_comm_key).collect())),
-            ("pcs".into(), Expect::Fes(proofs.iter().map(|p| p.c).collect())),
-            ("hcs".into(), Expect::OptG1List(proofs.iter().map(|p| p.hiding_comm).collect())),
-            ("prands".into(), Expect::Raw(Val::L(proofs.iter().map(|p| wire::opt_fe(&p.rand)).collect()))),
-            ("used_xi".into(), Expect::Nat(kx)),
-            ("used_ro".into(), Expect::Nat(kr)),
-            ("used_draws".into(), Expect::Nat(kd)),
-        ]),
-    );
+    let mut exp = vec![
+        ("fcks".into(), Expect::G1s(proofs.iter().map(|p| p.final_comm_key).collect())),
+        ("pcs".into(), Expect::Fes(proofs.iter().map(|p| p.c).collect())),
+        ("hcs".into(), Expect::OptG1List(proofs.iter().map(|p| p.hiding_comm).collect())),
+        ("prands".into(), Expect::Raw(Val::L(proofs.iter().map(|p| wire::opt_fe(&p.rand)).collect()))),
+        ("nls".into(), Expect::Nats(proofs.iter().map(|p| p.l_vec.len()).collect())),
+        ("used_xi".into(), Expect::Nat(xis.len())),
+    ];
+    if key_defined {
+        exp.push(("lss".into(), Expect::Raw(Val::L(ps.iter().map(|p| wire::fes(&p.ls)).collect()))));
+        exp.push(("rss".into(), Expect::Raw(Val::L(ps.iter().map(|p| wire::fes(&p.rs)).collect()))));
+        exp.push(("used_ro".into(), Expect::Nat(kr)));
+        exp.push(("used_draws".into(), Expect::Nat(kd)));
+    }
+    ctx.ses.ask(id, req, ImplOutcome::Ok(exp));
+    if !key_defined {
+        return Err("proof-not-key-defined".into());
+    }
     Ok(BatchOpened { proofs, ps, xis })
 }
 
